@@ -131,7 +131,10 @@ def chip_file(draw, model, sig_ids, reg_ids, attns, bits, insts):
         for r in reg_ids:
             if draw(st.booleans()):
                 regs['%06x' % r] = [draw(st.sampled_from(NAMES)),
-                                    {str(i): '%x' % draw(st.integers(0, 0xFFFFFFFF)) for i in insts
+                                    {str(i): '%x' % draw(st.one_of(st.integers(0, 0xFFFFFFFF),
+                                                                   st.sampled_from([0x800000030C010C3F, 0xFFFFFFFF,
+                                                                                    0x100000000, 0xFFFFFFFFFFFFFFFF])))
+                                     for i in insts
                                      if draw(st.booleans())}]
         f['registers'] = regs
     return f
